@@ -3,7 +3,6 @@ mod ord_enum;
 mod ord_struct;
 mod panic;
 
-use quote::quote;
 use syn::{Data, DeriveInput, Meta};
 
 use super::TraitHandler;
